@@ -220,15 +220,15 @@ func runC17(c *Ctx) {
 }
 
 var c17FrozenPanics = map[string]string{
-	"(*core/types.Block).SetVersion":     "panics only for version 0; handleMsg passes the fork-schedule version (>= 1) of the block's own number",
-	"(*core/types.Header).Hash":          "panics on an unversioned header: header-version typestate across the downloader/fetcher queues is NOT decided here (needs heap-sensitive analysis)",
-	"crypto.VersionHash":                 "panics on an unknown version: same typestate as Header.Hash (not decided)",
-	"p2p.newPeerError":                   "panics on an error code missing from the local table (programming error, not input dependent)",
-	"(*p2p/discover.udp).handleReply":    "no explicit panic expected here (kept for stability)",
-	"p2p/discover.ListenUDP":             "local configuration",
-	"(*p2p/discover.udp).send":           "encoding of a locally built packet failed (not input dependent)",
-	"p2p/discover.encodePacket":          "encoding of a locally built packet",
-	"p2p.Send":                           "local encoding",
+	"(*core/types.Block).SetVersion":  "panics only for version 0; handleMsg passes the fork-schedule version (>= 1) of the block's own number",
+	"(*core/types.Header).Hash":       "panics on an unversioned header: header-version typestate across the downloader/fetcher queues is NOT decided here (needs heap-sensitive analysis)",
+	"crypto.VersionHash":              "panics on an unknown version: same typestate as Header.Hash (not decided)",
+	"p2p.newPeerError":                "panics on an error code missing from the local table (programming error, not input dependent)",
+	"(*p2p/discover.udp).handleReply": "no explicit panic expected here (kept for stability)",
+	"p2p/discover.ListenUDP":          "local configuration",
+	"(*p2p/discover.udp).send":        "encoding of a locally built packet failed (not input dependent)",
+	"p2p/discover.encodePacket":       "encoding of a locally built packet",
+	"p2p.Send":                        "local encoding",
 }
 
 func reachablePanicsOpt(c *Ctx, roots []*ssa.Function, stop func(*ssa.Function) bool, skipGo bool) map[string]string {
